@@ -18,8 +18,8 @@ def run_bounded(run, pid, module=None):
         run.bounded.append(b)
 
 
-LEAN_CHECKED = ["reach_induction", "reach_trans", "reach_sym", "reach_common", "reach_mono", "psum_monotone", "psum_congruence", "count_lemma", "lattice_connected_lemma", "astar_cut"]
-LEAN_FILES = ["Lemmas.lean", "Lattice.lean", "AstarCut.lean"]
+LEAN_CHECKED = ["reach_induction", "reach_trans", "reach_sym", "reach_common", "reach_mono", "psum_monotone", "psum_congruence", "count_lemma", "lattice_connected_lemma", "astar_cut", "unravel"]
+LEAN_FILES = ["Lemmas.lean", "Lattice.lean", "AstarCut.lean", "Unravel.lean"]
 
 
 def run_lean(run):
